@@ -157,4 +157,30 @@ def unfoldF : HForm → List (List HForm)
   | .clause2 l r false => (unfoldF l).flatMap fun c => (unfoldF r).map fun d => c ++ d
   | f => [[f]]
 
+/-! ### time ranges of head atoms (transformers/head.py, `TheoryAtomTransformer`) -/
+
+/-- a range of time offsets: the point `lo` or the ray `lo, lo+1, …` -/
+structure TRange where
+  lo : Nat
+  ray : Bool
+  deriving Repr, DecidableEq
+
+def TRange.covers (r : TRange) (x : Nat) : Prop := if r.ray then r.lo ≤ x else r.lo = x
+
+/-- key of a head atom: sign, name, arguments as printed -/
+def hkey (p : Bool) (n : String) (a : List Sym) : String := (if p then "" else "-") ++ n ++ "(" ++ symsToStr a ++ ")"
+
+/-- the ranges `TheoryAtomTransformer` collects (ground, numeric case): next operators move the range, the unbounded
+    operators turn it into a ray, nothing below a negation is collected -/
+def rangesH (lo : Nat) (ray : Bool) : HForm → List (String × TRange)
+  | .atom p n a => [(hkey p n a, ⟨lo, ray⟩)]
+  | .next n f _ => rangesH (lo + n) ray f
+  | .until2 l r _ => rangesH lo true l ++ rangesH lo true r
+  | .until1 r _ => rangesH lo true r
+  | .clause2 l r _ => rangesH lo ray l ++ rangesH lo ray r
+  | .neg _ => []
+  | .const _ => []
+  | .shift _ _ => []
+
+
 end TelModel
